@@ -17,7 +17,7 @@ def value_of(seed, name: str, kind: str = "pos"):
     """Deterministic rational value for a named input (same name -> same value in every model of a case)."""
     r = random.Random(f"{seed}:{name}")
     if kind == "small":
-        return sympy.Rational(r.randint(-9, 9), r.choice([7, 11, 13, 17]))
+        return sympy.Rational(r.choice([-1, 1]) * r.randint(1, 9), r.choice([7, 11, 13, 17]))
     return sympy.Rational(r.randint(1, 40), r.randint(3, 9))
 
 
